@@ -7,19 +7,19 @@ git -C /repo worktree remove --force $WT 2>/dev/null; git -C /repo worktree prun
 git -C /repo worktree add -q $WT HEAD || exit 2
 cd /verif
 ids=("$@")
-if [ ${#ids[@]} -eq 0 ]; then ids=($(ls seeded) m1_global_memo m2_racy_origins m3_crs_budget m4_global_call_count); fi
+if [ ${#ids[@]} -eq 0 ]; then ids=($(ls seeded) m1_global_memo m2_racy_origins m3_crs_budget m4_global_call_count m5_leaked_lock); fi
 for id in "${ids[@]}"; do
   if [ -f seeded/$id/patch.diff ]; then p=seeded/$id/patch.diff; else p=mutants/$id.diff; fi
   git -C $WT checkout -q -- . ; git -C $WT apply /verif/$p || { echo "$id: patch does not apply"; continue; }
   case $id in
     c13-g|m1_global_memo|m2_racy_origins) eng=M ;;
-    c13-j) eng=Hs ;;
+    c13-j|c13-t) eng=Hs ;;
     *) eng=H,Hd ;;
   esac
   t0=$(date +%s)
-  out=$(VERIF_REPO=$WT timeout 3000 ./check C13 --tier quick --engines $eng 2>&1); rc=$?
+  out=$(VERIF_WORK=/verif/work-regress VERIF_REPO=$WT timeout 3000 ./check C13 --tier quick --engines $eng 2>&1); rc=$?
   n=$(echo "$out" | grep -c "^VIOLATION")
   echo "$id engines=$eng exit=$rc violations=$n time=$(( $(date +%s) - t0 ))s :: $(echo "$out" | grep -m1 '^  ' | cut -c1-150)"
   find /verif/replays -name 'C13-*.json' -delete
 done
-git -C /repo worktree remove --force $WT; rm -rf /verif/work/alt-sim /verif/work/alt-miri
+git -C /repo worktree remove --force $WT; rm -rf /verif/work-regress
